@@ -396,6 +396,46 @@ def builtin_call(self, name, e, st):
             else:
                 yield st1, Val(z3.If(v.t >= 0, v.t, -v.t), v.ty)
         return
+    if name in ("all", "any") and isinstance(e.args[0], (ast.ListComp, ast.GeneratorExp)) and len(e.args[0].generators) == 1 \
+            and not e.args[0].generators[0].ifs:
+        # all/any over a comprehension of a symbolic sequence: one bounded quantifier over the index (no intermediate list)
+        comp = e.args[0]
+        g = comp.generators[0]
+        done = False
+        for st1, it in self.ev(g.iter, st):
+            if isinstance(it, Raise):
+                yield st1, it
+                done = True
+                continue
+            if it.ty == "pylist":
+                break
+            s = self.read_field(st1, it, it.ty[1], "keys") if (is_ref(it.ty) and it.ty[1].startswith("dict_")) else self.seq_of(st1, it)
+            i = fresh_const("qi", I)
+            n = z3.Length(s.t)
+            s2 = st1.assume(z3.And(i >= 0, i < n))
+            elem = Val(s.t[i], s.ty[1])
+            if isinstance(g.target, ast.Name):
+                s2.env[g.target.id] = elem
+            elif isinstance(g.target, ast.Tuple) and isinstance(elem.ty, tuple) and elem.ty[0] == "tuple":
+                dt = sort_of(elem.ty)
+                for j, nm in enumerate(g.target.elts):
+                    s2.env[nm.id] = Val(dt.accessor(0, j)(elem.t), elem.ty[1][j])
+            else:
+                raise Unsupported("comprehension target")
+            self.spec_mode += 1
+            try:
+                res = list(self.ev(comp.elt, s2))
+            finally:
+                self.spec_mode -= 1
+            if len(res) != 1 or isinstance(res[0][1], Raise):
+                raise Unsupported("forking element expression under all/any")
+            body = self.truthy(res[0][1])
+            rng = z3.And(i >= 0, i < n)
+            q = z3.ForAll([i], z3.Implies(rng, body)) if name == "all" else z3.Exists([i], z3.And(rng, body))
+            yield st1, Val(q, "bool")
+            done = True
+        if done:
+            return
     if name in ("all", "any"):
         for st1, v in self.ev(e.args[0], st):
             if isinstance(v, Raise):
@@ -603,6 +643,20 @@ def method_call(self, st, base, attr, args, node):
             mp = self.read_field(st, base, cls, "map")
             if attr == "keys":
                 yield st, ks
+                return
+            if attr == "clear":
+                s = st.fork()
+                self.write_field(s, base, cls, "keys", Val(z3.Empty(sort_of(ks.ty)), ks.ty), line)
+                yield s, Val(z3.IntVal(0), "none")
+                return
+            if attr == "update" and len(args) == 1 and args[0].ty == "dictval":
+                nk, nm = args[0].py
+                if not z3.eq(z3.simplify(z3.Length(ks.t)), z3.IntVal(0)):
+                    raise Unsupported("dict.update on a dict that is not known to be empty")
+                s = st.fork()
+                self.write_field(s, base, cls, "keys", Val(nk.t, ks.ty), line)
+                self.write_field(s, base, cls, "map", Val(nm.t, mp.ty), line)
+                yield s, Val(z3.IntVal(0), "none")
                 return
             if attr == "get" and len(args) == 2:
                 present = z3.Contains(ks.t, z3.Unit(args[0].t))
